@@ -1619,6 +1619,11 @@ func (e *Exec) specCall(call *ast.CallExpr, c *Ctx) Term {
 			owner, fld := e.syncMapOwner(call.Args[0], c)
 			arr := e.get(c.st, "OP!"+fld, &Type{K: KGMap, Key: tInt, Elem: tInt})
 			return Term{fmt.Sprintf("(select %s %s)", arr.S, owner.S), tInt}
+		case "atomicvalue":
+			// what an atomic.Value field holds (an interface value)
+			owner, fld := e.syncMapOwner(call.Args[0], c)
+			arr := e.get(c.st, "OV!"+fld, &Type{K: KGMap, Key: tInt, Elem: tAny})
+			return Term{fmt.Sprintf("(select %s %s)", arr.S, owner.S), tAny}
 		case "smapin":
 			owner, fld := e.syncMapOwner(call.Args[0], c)
 			k := e.toAny(e.eval(call.Args[1], c), c.st)
